@@ -8,6 +8,10 @@ NOTE_COMMON = ("Trusted base: go/packages + go/types + go/ssa of golang.org/x/to
                "so a large refactoring can raise an alarm although behaviour is preserved.")
 
 claimed = {
+ "C07": dict(
+   text="Decides the guard-table and sibling-agreement clauses of the CMap reader: the 17 CIDInit operators exist; every begin* demands an open block, one integer operand in [0,100] with the prescribed error names and sizes its scratch buffer with it; every end* takes 2 or 3 operands per entry below a computed base (stackunderflow if missing), asserts string sources, equal-length non-reversed bounds for all four range kinds, the destination class of its kind, all before the first store; appends copies into the table of its own kind after the loop, pops its operands and resets the scratch buffer; sibling operators are identical up to name/table/destination test; endcmap sorts all seven tables with the right comparator and stores them under CodeMap; usecmap records its operand. Does not decide equality of the tables with the file's entries as values.",
+   technique="static analysis: go/ssa dominating-condition bounds and error-name classification per registered operator, sibling comparison of normalised operator bodies, comparator structure check",
+   ref="DESIGN.md §5 C07"),
  "C06": dict(
    text="Decides the specification-table and shape clauses of the Type 1 reader: opcode constants, handler exhaustiveness with error default, per-command operand counts demanded before operands are read, stack clearing, operand→relative move/line/curve mapping of the eight path commands, flex protocol (reset, record, seven points, two curves from points 1..6, moves only record), callothersubr/pop argument transfer, callsubr index check and unconditional depth-limited frame push, charstring decryption key/data flow/lenIV skip and guard, defaults (BlueScale, BlueShift, BlueFuzz, lenIV, FontMatrix), seac through StandardEncoding with range checks, own copy of base commands, translation of every accent coordinate, exhaustive GlyphOp switches and literal arities, .notdef substitution, 0x80 container test. Does not decide equality of outlines/values with the described font nor the side-bearing points where readings of the book differ.",
    technique="static analysis: AST/type-info table extraction compared with Adobe Type 1 tables carried in the checker, canonical symbolic terms for the cipher, go/ssa dominance for range checks and aliasing",
